@@ -256,3 +256,8 @@ Proof. vm_compute. auto. Qed.
 Print Assumptions C07_checker_no_panic.
 Print Assumptions C07_checker_answers.
 Print Assumptions C07_checker_no_panic_witness.
+
+(* note (types agent, /repo 356c2fa): C07_checker_no_panic excludes Panic, not OutOfFuel.  The one place where the
+   constraint solving of the checker could grow a type without bound was fn div_res on a tuple whose unknown result is one
+   of its own components (C07-divres-endless-inference: a native stack overflow); it is now refused by the occurs check
+   (Tc.divres_body calls check_not_inside first; C03 plants cyclic-tuple-div..., corpus/c03/divres_own_component.sy). *)
